@@ -34,8 +34,8 @@ def after_case(op, mut, old_src, approved, vals, top="list"):
     x0, x1, m0 = vals["x0"], vals["x1"], vals["m0"]
     if op == "==":
         line = f"    assert v == snapshot({old_src})"
-    elif op == "<=":
-        line = f"    assert v <= snapshot({old_src})"
+    elif op in ("<=", ">="):
+        line = f"    assert v {op} snapshot({old_src})"
     elif op == "in":
         line = f"    assert v in snapshot({old_src})"
     else:
@@ -51,7 +51,7 @@ def after_case(op, mut, old_src, approved, vals, top="list"):
         return False
     if got is world.MISSING:
         return False
-    if op in ("==", "<="):
+    if op in ("==", "<=", ">="):
         return got == want
     if op == "in":
         return len(got) >= 1 and got[-1] == want and all((g == want or old_src) for g in got)
@@ -172,9 +172,9 @@ VD3 = "{'x0': x0, 'x1': x1, 'm0': m0}"
 def conditions(tier):
     q = tier == "quick"
     conds = []
-    for op, opn in (("==", "eq"), ("<=", "le"), ("in", "in"), ("[]", "gi")):
+    for op, opn in (("==", "eq"), ("<=", "le"), (">=", "ge"), ("in", "in"), ("[]", "gi")):
         for mut in MUTATIONS:
-            for old_src, oldn, approved, extra in (("", "create", {"create"}, []), ({"==": "[c0, [c1]]", "<=": "[c0, [c1]]", "in": "[[c0, [c1]]]", "[]": "{1: [c0, [c1]]}"}[op], "fix", {"fix", "trim"}, ["c0", "c1"])):
+            for old_src, oldn, approved, extra in (("", "create", {"create"}, []), ({"==": "[c0, [c1]]", "<=": "[c0, [c1]]", ">=": "[c0, [c1]]", "in": "[[c0, [c1]]]", "[]": "{1: [c0, [c1]]}"}[op], "fix", {"fix", "trim"}, ["c0", "c1"])):
                 if q and oldn == "fix" and mut in ("del0", "extend_nested_alias", "clear"):
                     continue
                 names = V3 + [(n, "int") for n in extra]
@@ -183,11 +183,13 @@ def conditions(tier):
                 pre = []
                 if oldn == "fix" and op == "<=":
                     pre = ["c0 < x0"]  # make it a fix (the observed value exceeds the bound)
+                if oldn == "fix" and op == ">=":
+                    pre = ["c0 > x0"]  # make it a fix (the observed value is below the bound)
                 body = f"return after_case({op!r}, {mut!r}, {old_src!r}, {approved!r}, {vd})"
                 conds.append(Cond(name, mkfn(name, names, body, GLB, pre=pre), timeout=600, group="after",
                                   bounds=f"v = [x0, [x1]]; assert v {op} snapshot({old_src}); then `{MUTATIONS[mut]}`; approved {sorted(approved)}; all ints symbolic"))
     # shallowly immutable containers: a tuple that holds a list
-    for op, opn in (("==", "eq"), ("<=", "le"), ("in", "in"), ("[]", "gi")):
+    for op, opn in (("==", "eq"), ("<=", "le"), (">=", "ge"), ("in", "in"), ("[]", "gi")):
         for mut in ("nested_set", "nested_append"):
             name = f"after_tuple_{opn}_{mut}"
             body = f"return after_case({op!r}, {mut!r}, '', {{'create'}}, {VD3}, 'tuple')"
@@ -225,7 +227,7 @@ def conditions(tier):
 
 
 META = {
-    "bounds": {"quick": "value [x0, [x1]] / {1: [x0]} (depth 2) with 7 list and 5 dict mutations (operands symbolic) after one assertion (create and fix) or between two assertions of the same object; operations ==, <=, >=, in, [key]; a tuple holding a list",
+    "bounds": {"quick": "value [x0, [x1]] / {1: [x0]} (depth 2) with 7 list and 5 dict mutations (operands symbolic) after one assertion (create and fix; ==, <=, >=, in, [key]) or between two assertions of the same object; operations ==, <=, >=, in, [key]; a tuple holding a list",
                "thorough": "all mutation x approval combinations"},
     "outside": "deeper or other value types; objects with custom __deepcopy__",
     "assumptions": ["stub: repr of a symbolic int leaf is a name token"],
